@@ -1111,6 +1111,12 @@ func (x *Explorer) Run() []Hit {
 						res := func(r ssa.Value, name string) string {
 							k := x.key(r, st)
 							if len(k) <= maxKeyLen && !inHelper(k) {
+								// what this path knows about the result stays attached to the
+								// call's register: the key may mention memory and be forgotten
+								// at the next store, the value of the register is not
+								if tv, known := truthOfKey(k, st); known && isBoolType(r.Type()) {
+									ns.Facts["r:"+name] = tv
+								}
 								return k
 							}
 							if len(k) <= maxKeyLen {
